@@ -181,6 +181,7 @@ func main() {
 	editNew := flag.String("edit-new", "", "")
 	dumpKnownFlag := flag.Bool("dump-known", false, "print the function and call-edge list of the tree (input of known_calls.txt)")
 	dumpNorm := flag.String("dump-normalised", "", "write the files changed by the inlining normalisation into this directory and exit")
+	normOnly := flag.Bool("normalised-only", false, "debugging: run the check on the normalised program only")
 	noNorm := flag.Bool("no-normalise", false, "do not retry a failing check on the program normalised by inlining")
 	flag.Parse()
 	if *dumpKnownFlag {
@@ -270,6 +271,15 @@ func main() {
 		os.Exit(2)
 	}
 	start := time.Now()
+	if *normOnly {
+		if ov, log := normalizeByInlining(*repo, runOverlay); ov != nil {
+			runOverlay = ov
+			for _, l := range log {
+				fmt.Println(l)
+			}
+		}
+		*noNorm = true
+	}
 	res := runProp(*prop, f, *repo, *tier)
 	if !*noNorm && resFailed(res, *prop, *verif) {
 		// the same check on the program with the calls unknown to the rules inlined (inline.go)
